@@ -69,7 +69,7 @@ def buf_lattice(rng, pdu_len, ll, big_ok=True):
         return near(rng, 4090, 4095, 4097, 4100, 4104, 4110, spread=3)
     if r < 95 or not big_ok:
         return rng.range(0, 9000)
-    return rng.choice([65535, 65536, 70000])
+    return rng.choice([65535, 65536, 65539, 65540, 70000, 65536 + 4097])
 
 
 def enc_prelude(rng, c, label):
@@ -132,6 +132,9 @@ def fam_encfrag(rng, n):
         bl = rng.choice([rng.range(0, 12), rem + 7 + rng.range(-3, 3), rem + 3 + rng.range(-2, 2),
                          near(rng, 4094, 4097, 4098, 4100), rng.range(0, 6000)])
         bl = max(0, bl)
+        if rem > 4090 and rng.chance(0.3):
+            # room for a payload of 65536 bytes and more: lengths that lose their meaning when squeezed into 16 bits
+            bl = rng.choice([65538, 65539, 65540, 65539 + 65536, 70000])
         c.add("ENEW", "EFRAG %s %d %d %d %d %d" % (pdu_tok(rng, pl), rng.below(256), rng.below(1 << 32), min(lpf, 65535), bl, rng.below(1000)))
         out.append(c)
     return out
